@@ -148,7 +148,8 @@ type vDConn struct {
 	mu        sync.Mutex
 	dl        time.Time
 	ops       int  // I/O and deadline operations so far
-	cancelAt  int  // cancel the context right before operation #cancelAt (-1: never)
+	cancelAt  int  // cancel the context at operation #cancelAt (-1: never)
+	cancelLate bool // ... at its end instead of its start
 	ctx       *vCtx
 	silent    bool // the peer never answers
 	wrote     []byte
@@ -165,7 +166,12 @@ type vDConn struct {
 
 var vTheConn *vDConn
 
-func (c *vDConn) op() {
+// op marks the start of connection operation #k; opEnd its completion.  The context is
+// cancelled at the start (cancelLate=false) or at the end (cancelLate=true) of operation
+// #cancelAt.  Natively the canceller then waits (<= 20 ms) for the watcher to poison the
+// connection, which makes the "watcher ran at once" interleaving deterministic there; the
+// engine explores every interleaving regardless.
+func (c *vDConn) op() int {
 	c.mu.Lock()
 	k := c.ops
 	c.ops++
@@ -173,10 +179,27 @@ func (c *vDConn) op() {
 		c.opsAfter++
 	}
 	c.mu.Unlock()
-	if c.ctx != nil && k == c.cancelAt {
-		c.ctx.cancel(context.Canceled)
+	if c.ctx != nil && k == c.cancelAt && !c.cancelLate {
+		c.cancelNow()
 	}
 	vYield()
+	return k
+}
+
+func (c *vDConn) opEnd(k int) {
+	if c.ctx != nil && k == c.cancelAt && c.cancelLate {
+		c.cancelNow()
+		vYield()
+	}
+}
+
+func (c *vDConn) cancelNow() {
+	c.ctx.cancel(context.Canceled)
+	if !vSymbolic() {
+		for i := 0; i < 20 && !c.expired(); i++ {
+			time.Sleep(time.Millisecond)
+		}
+	}
 }
 
 func (c *vDConn) expired() bool {
@@ -186,7 +209,8 @@ func (c *vDConn) expired() bool {
 }
 
 func (c *vDConn) Read(p []byte) (int, error) {
-	c.op()
+	k := c.op()
+	defer c.opEnd(k)
 	if c.expired() {
 		return 0, vTimeoutErr{}
 	}
@@ -207,7 +231,8 @@ func (c *vDConn) Read(p []byte) (int, error) {
 }
 
 func (c *vDConn) Write(p []byte) (int, error) {
-	c.op()
+	k := c.op()
+	defer c.opEnd(k)
 	if c.expired() {
 		return 0, vTimeoutErr{}
 	}
@@ -218,7 +243,8 @@ func (c *vDConn) Write(p []byte) (int, error) {
 }
 
 func (c *vDConn) SetDeadline(t time.Time) error {
-	c.op()
+	k := c.op()
+	defer c.opEnd(k)
 	c.mu.Lock()
 	c.dl = t
 	c.setDLs++
@@ -262,7 +288,9 @@ func C20_dial_cancellation() {
 	// a silent peer with nothing that could ever end the wait is outside the property
 	// (with a silent peer only the request write (#0) and the first read (#1) ever happen, so a
 	// cancellation tied to a later operation never fires)
-	bounded := timeout > 0 || ctxKind >= 2 || (cancelAt >= 0 && cancelAt <= 1)
+	// — #1 never *completes*, so a cancellation at its end does not fire either)
+	late := vBool("cancellate")
+	bounded := timeout > 0 || ctxKind >= 2 || cancelAt == 0 || (cancelAt == 1 && !late)
 	if silent && !bounded {
 		vAssume(false)
 	}
@@ -281,7 +309,7 @@ func C20_dial_cancellation() {
 			}
 		}
 	}
-	conn := &vDConn{cancelAt: cancelAt, ctx: root, silent: silent}
+	conn := &vDConn{cancelAt: cancelAt, cancelLate: late, ctx: root, silent: silent}
 	vTheConn = conn
 	d := Dialer{Timeout: time.Duration(timeout * vMs), NetDial: func(ctx context.Context, network, addr string) (net.Conn, error) { return conn, nil }}
 	var err error
